@@ -120,14 +120,20 @@ def run(tier, seed, replay):
     # ------------------------------------------------------------------ TLC jobs
     jobs = []   # (name, kind, thunk)
 
+    # development aid (mutation experiments on a busy machine): VERIF_C04_PARTS=filter|session restricts the run to one layer;
+    # the registered commands never set it
+    parts = set((os.environ.get("VERIF_C04_PARTS") or "filter,session").split(","))
+
     def add(name, kind, **kw):
-        jobs.append((name, kind, kw))
+        layer = "filter" if kw["module"].endswith("SlidingWindow") else "session"
+        if layer in parts:
+            jobs.append((name, kind, kw))
 
     # (F1) design, exhaustive over the boundary alphabets of all window sizes (the size is chosen by the constructor = Init),
     #      up to MaxAcc accepted counters per epoch (refused calls are free)
     add("filter-design", "design", module="MCSlidingWindow", cfg="MCSlidingWindow.cfg",
         consts=filter_consts(SIZES, B, ring, 6 if big else 3, 1, not big, False),
-        workers=10 if big else 6, timeout=3400 if big else 900, heap="12g" if big else "4g")
+        workers=10 if big else 6, timeout=3400 if big else 1500, heap="12g" if big else "4g")
     # (F2) replay graph: every state with <= n accepted counters, every call from it
     if big:
         add("filter-graph-a", "fgraph", module="MCSlidingWindow", cfg="MCSlidingWindow.cfg",
@@ -136,24 +142,24 @@ def run(tier, seed, replay):
             consts=filter_consts([63, 65, 256, 1000], B, ring, 2, 1, False, True), workers=2, timeout=3000, heap="6g")
     else:
         add("filter-graph", "fgraph", module="MCSlidingWindow", cfg="MCSlidingWindow.cfg",
-            consts=filter_consts(SIZES, B, ring, 2, 0, False, True), workers=3, timeout=900, heap="4g")
+            consts=filter_consts(SIZES, B, ring, 2, 0, False, True), workers=3, timeout=1500, heap="4g")
     # (F3) deep random behaviours (resets, hundreds of counters, a window that keeps sliding)
     simc = filter_consts(SIZES, B, ring, 1000, 4, False, False, rel=lambda S: rel_walk(S, B, ring[S]))
     simc["Len"] = 150 if big else 80
-    add("filter-sim", "fsim", module="SimSlidingWindow", cfg="SimSlidingWindow.cfg", consts=simc, workers=8 if big else 2, timeout=2400 if big else 900,
+    add("filter-sim", "fsim", module="SimSlidingWindow", cfg="SimSlidingWindow.cfg", consts=simc, workers=8 if big else 2, timeout=2400 if big else 1500,
         simulate="num=%d" % (64 if big else 8), depth=simc["Len"] + 1, seed=seed, heap="6g", keep_out=True)
 
     dl_srv = "{1,90,93,180,%d}" % (3 * k["Nat"])
     dl_cli = "{1,90,93,179,180}"
     if not big:
         add("server-design", "design", module="MCUdpSession", cfg="MCUdpSession.cfg",
-            consts=sess_consts(k, "server", MaxPid=3, MaxPack=3, MaxAdv=3, Skews="{0,30}", Deltas=dl_srv), workers=3, timeout=600, heap="4g")
+            consts=sess_consts(k, "server", MaxPid=3, MaxPack=3, MaxAdv=3, Skews="{0,30}", Deltas=dl_srv), workers=3, timeout=1500, heap="4g")
         add("client-design", "design", module="MCUdpSession", cfg="MCUdpSession.cfg",
-            consts=sess_consts(k, "client", MaxPid=2, MaxPack=3, MaxAdv=3, Deltas=dl_cli), workers=3, timeout=600, heap="4g")
+            consts=sess_consts(k, "client", MaxPid=2, MaxPack=3, MaxAdv=3, Deltas=dl_cli), workers=3, timeout=1500, heap="4g")
         add("server-graph", "sgraph", module="MCUdpSession", cfg="MCUdpSession.cfg",
-            consts=sess_consts(k, "server", True, MaxPid=2, MaxPack=2, MaxAdv=2, Skews="{0,30}", Deltas=dl_srv), workers=2, timeout=600, heap="4g")
+            consts=sess_consts(k, "server", True, MaxPid=2, MaxPack=2, MaxAdv=2, Skews="{0,30}", Deltas=dl_srv), workers=2, timeout=1500, heap="4g")
         add("client-graph", "sgraph", module="MCUdpSession", cfg="MCUdpSession.cfg",
-            consts=sess_consts(k, "client", True, MaxPid=2, MaxPack=3, MaxAdv=3, Deltas="{179,180}"), workers=2, timeout=600, heap="4g")
+            consts=sess_consts(k, "client", True, MaxPid=2, MaxPack=3, MaxAdv=3, Deltas="{179,180}"), workers=2, timeout=1500, heap="4g")
     else:
         add("server-design", "design", module="MCUdpSession", cfg="MCUdpSession.cfg",
             consts=sess_consts(k, "server", CSess='{"c1","c2"}', MaxPid=3, MaxPack=4, MaxAdv=3, Skews="{0,30}", Deltas=dl_srv),
@@ -221,7 +227,7 @@ def run(tier, seed, replay):
                 uncovered += left
             tlc_summary[name].update(edges=len(g.edges), paths=len(paths), uncovered_edges=left)
         else:
-            paths = g.random_walks(1500 if big else 250, 45, seed=seed)
+            paths = list({tuple(w): w for w in g.random_walks(1500 if big else 250, 45, seed=seed)}.values())
             tlc_summary[name].update(edges=len(g.edges), walks=len(paths))
         behs = [g.behaviour(p) for p in paths]
         if kind == "fgraph":
@@ -267,14 +273,13 @@ def run(tier, seed, replay):
     # ------------------------------------------------------------------ the property's ghost-set oracle over every sequence (real filter)
     depth = 6 if big else 4
     dfs = []
-    for S in SIZES:
+    for S in (SIZES if "filter" in parts else []):
         ids = alphabet(S, B, ring[S])
         for bk in BASES:
             for mode in ("Add", "CheckAdd"):
-                d = depth
-                if big and len(ids) > 17 and not (bk == "hi" and mode == "Add"):
-                    d = 5       # the two largest alphabets go to depth 6 once, at the 2^64-1 end, and to depth 5 elsewhere
-                dfs.append({"size": S, "ids": ids, "ringBits": ring[S] * B, "base": bk, "mode": mode, "depth": d, "rel": rel_edge(S)})
+                # besides the window edge below the newest counter, one far jump ahead (2^40+65: many ring periods at once)
+                dfs.append({"size": S, "ids": ids, "ringBits": ring[S] * B, "base": bk, "mode": mode, "depth": depth,
+                            "rel": rel_edge(S) + [(1 << 40) + B + 1]})
     dfs.sort(key=lambda j: -(len(j["ids"]) ** j["depth"]))
     nproc = 16
     buckets = [[] for _ in range(nproc)]
